@@ -219,6 +219,14 @@ func (h *wireHooks) Call(in *Interp, c *CallCtx, k func(*State, []Val)) bool {
 			}
 		}
 		if c.Iface && fn.Name() == "Write" && len(c.Args) == 1 {
+			if a := c.Args[0]; a.K == KSlice && len(a.Elems) > 0 && len(a.Elems) <= 8 {
+				// dest.Write([]byte{b0, b1, ...}): single bytes, in order
+				for _, e := range a.Elems {
+					c.St.emit(&Sym{Kind: "op", Name: "fixed1", Arg: in.resolve(e, c.St), Pos: c.Site.Pos(), Extra: "w:"})
+				}
+				k(c.St, []Val{unknown, {K: KNil}})
+				return true
+			}
 			if a := c.Args[0]; a.K == KAlloc && a.Obj != 0 {
 				if m := c.St.heap[a.Obj]; m != nil {
 					if info, ok := m["putinfo"]; ok {
